@@ -202,7 +202,8 @@ def _install_step_counter(ctx):
     _STEP["installed"] = True
 
 
-STEP_BUDGET = 3_000_000  # library function entries per case (the largest case of the quick workloads needs < 10^5, thorough < 10^6)
+STEP_BUDGET = 50_000_000  # library function entries per case: >= 50x what the largest case of any tier needs (quick < 10^5, thorough < 10^6), so that a
+# refactoring which multiplies the number of helper calls is never cut off; an endless loop still is, after some tens of seconds
 
 
 def case_guard(ctx, case, fn, *args):
